@@ -1,6 +1,6 @@
 """C04 - cw3: threshold arithmetic (narrow structural clauses; the numeric formulas are not decided)."""
 from ..engine import show
-from ..idioms import nf, walk
+from ..idioms import nf, walk, norm_cmp
 from .cw3common import IS_PASSED, VOTES_NEEDED
 
 ID = "C04"
@@ -91,7 +91,7 @@ def run(ctx):
     yes = ("field", ("field", ("param", "self"), "votes"), "yes")
     n = 0
     for p in paths:
-        r = p.ret
+        r = norm_cmp(p.ret)
         if r == ("lit", False):
             continue
         n += 1
@@ -185,7 +185,7 @@ def check_siblings(ctx, passed_paths):
     no = ("field", ("field", ("param", "self"), "votes"), "no")
     P, R = {}, {}
     for p in passed_paths:
-        r = p.ret
+        r = norm_cmp(p.ret)
         if r[0] == "lit":
             continue
         k = arm_key(p)
@@ -195,7 +195,7 @@ def check_siblings(ctx, passed_paths):
         if good:
             P[k] = r[2]
     for p in rej_paths:
-        r = p.ret
+        r = norm_cmp(p.ret)
         if r[0] == "lit":
             continue
         k = arm_key(p)
